@@ -44,7 +44,7 @@ def run(run):
     # ---- histories: exhaustive short ones + simulated long ones
     hist = []
     p = os.path.join(out, "GenH.cfg")
-    pcfg(p, 8, 2, 4, 2, 2 if quick else 3, gen=True)   # (MaxTF 3, MaxCalls 3) was measured at > 54 M histories: never finishes
+    pcfg(p, 8, 3, 4, 2, 2 if quick else 3, gen=True)   # (MaxTF 3, MaxCalls 3) was measured at > 54 M histories: never finishes
     hp = os.path.join(out, "hist_bfs.ndjson")
     run.gen("gen_hist_bfs", SPEC, "ProjStateGen", p, hp, workers=4, timeout=3000)
     hist += vlib.read_ndjson(hp)
